@@ -137,7 +137,10 @@ func (c *c03) genProject(r *rng) (Project, bool) {
 	multi := false
 	if r.chance(700) {
 		multi = true
-		switch r.n(11) {
+		switch r.n(12) {
+		case 11:
+			cfg.PathBodyFuzz = true
+			cfg.Types += 2
 		case 10:
 			cfg.LateFaults = 2 + r.n(3)
 		case 9:
@@ -361,8 +364,8 @@ func (c *c03) runAlt(cs *Case, a *altEnv, forced []simrt.Decision) (Result, []si
 		// library itself starts, shuffles, pool choices)
 		if a.Env.ReuseInput && cs.Opts.Entry == "file" {
 			var buf []byte
-			sharedRootBuffer = &buf
-			defer func() { sharedRootBuffer = nil }()
+			sharedRootBuffer, sharedRootFile = &buf, nil
+			defer func() { sharedRootBuffer, sharedRootFile = nil, nil }()
 			c.st.Exec++
 			execute(p, cs.Opts, a.Env, nil, cs.Seed+77, nil)
 			simrt.KeepPoolsOnce()
